@@ -528,8 +528,8 @@ class Command(Accessible):
                 )
             # convert transported value to internal value
             argument = self.argument.import_value(argument)
-            # verify range
-            self.argument.validate(argument)
+            # verify range (and use the validated value, e.g. clamped to the limits)
+            argument = self.argument.validate(argument)
             if isinstance(self.argument, TupleOf):
                 res = func(*argument)
             elif isinstance(self.argument, StructOf):
